@@ -165,3 +165,20 @@ Proof. intros E. induction n as [|n IH]; cbn [iter]; [reflexivity|]. rewrite E. 
 
 Lemma iter_plus {A} n m (f : A -> A) x : iter (n + m) f x = iter m f (iter n f x).
 Proof. revert x. induction n as [|n IH]; intros x; cbn [iter Nat.add]; [reflexivity|]. apply IH. Qed.
+
+(* exhaustive check of a boolean predicate over all bit lists of length n, without
+   materialising them *)
+Fixpoint forall_bits (n : nat) (f : list bool -> bool) : bool :=
+  match n with
+  | O => f []
+  | S m => forall_bits m (fun l => f (true :: l)) && forall_bits m (fun l => f (false :: l))
+  end.
+
+Lemma forall_bits_spec n : forall f, forall_bits n f = true -> forall l, length l = n -> f l = true.
+Proof.
+  induction n as [|n IH]; intros f Hf l Hl.
+  - destruct l; [exact Hf|discriminate].
+  - destruct l as [|b l]; [discriminate|]. cbn [forall_bits] in Hf.
+    apply andb_true_iff in Hf. destruct Hf as [Ht Hfalse].
+    injection Hl as Hl. destruct b; [apply (IH _ Ht l Hl)|apply (IH _ Hfalse l Hl)].
+Qed.
